@@ -1,3 +1,4 @@
+-- properties: C01 C06 C07
 /-
   C01 / C06 / C07 for DWVW (src/dwvw.c), on the bit-level model of SfModel/Dwvw.lean, DwvwFile.lean.
   Property theorems only; helpers in SfProofs/Dwvw*.lean.
